@@ -14,10 +14,13 @@ Record consts_facts : Prop := {
   cf_off : RS_OFF = 0;
   cf_up_off : (RS_UP =? RS_OFF) = false;
   cf_down_off : (RS_DOWN =? RS_OFF) = false;
-  cf_down_up : (RS_DOWN =? RS_UP) = false
+  cf_down_up : (RS_DOWN =? RS_UP) = false;
+  (* the C lookups that the routing model (find_idx over ALL relays / shutters) stands for scan the whole tables *)
+  cf_scan : LOOKUP_PORT_RELAY_BOUND = RELAY_MAX /\ RELAYHI_RELAY_BOUND = RELAY_MAX /\ SETVALUE_RELAY_BOUND = RELAY_MAX /\
+            LOOKUP_RELAY_RS_BOUND = RS_MAX /\ SETVALUE_RS_BOUND = RS_MAX
 }.
 Lemma consts_ok : consts_facts.
-Proof. constructor; vm_compute; first [reflexivity | congruence]. Qed.
+Proof. constructor; vm_compute; first [reflexivity | congruence | repeat split; reflexivity]. Qed.
 
 Local Opaque RELAY_PRE_US RELAY_RETRY_US RELAY_POST_US RS_SETTLE_US RS_START_DELAY_MS RS_STOP_DELAY_MS
       RS_DELAY_THRESHOLD RS_OFF RS_UP RS_DOWN SPACING_US.
